@@ -46,9 +46,9 @@ type c12Call struct {
 type c12Input struct {
 	Target string    `json:"target"` // the real endpoint: server | client
 	Suite  uint16    `json:"suite"`
-	Plan   string    `json:"plan"`          // ok | wrong-finished
-	Pos    int       `json:"pos"`           // handshake position (puppet steps done) where early arrivals are injected
-	Big    bool      `json:"big,omitempty"` // more than 480 bytes may be pending (only streams where nothing follows delivered data)
+	Plan   string    `json:"plan"`           // ok | wrong-finished
+	Pos    int       `json:"pos"`            // handshake position (puppet steps done) where early arrivals are injected
+	Big    bool      `json:"big,omitempty"`  // more than 480 bytes may be pending (only streams where nothing follows delivered data)
 	Pipe   bool      `json:"pipe,omitempty"` // the transport reports a read on a closed stream as io.ErrClosedPipe (like net.Pipe), not net.ErrClosed
 	Calls  []c12Call `json:"calls"`
 }
@@ -1135,7 +1135,10 @@ func runC12(p params) error {
 		{op("gone"), op("handshake"), rd(3), wr(3), op("close")},
 		{{Op: "end", T: "app", N: 2}, rd(4), op("handshake"), wr(4)},
 		{op("end"), wr(4), op("handshake"), rd(4), op("close"), op("handshake")},
-		{op("handshake"), arr(app(10)), op("gone"), wr(3), rd(100), rd(100), wr(1), op("close")}, // former K10: failed transport write, then Read of data that had arrived
+		{op("handshake"), arr(app(10)), op("gone"), wr(3), rd(100), rd(100), wr(1), op("close")},              // former K10: failed transport write, then Read of data that had arrived
+		{op("handshake"), arr(app(10)), rd(4), op("gone"), wr(3), rd(100), rd(2), wr(1), op("close")},         // ... with part of the record already consumed: the rest must not be delivered either
+		{op("handshake"), arr(app(10), app(6)), rd(4), rd(3), op("gone"), wr(3), rd(1), rd(100), op("close")}, // ... and a further record buffered
+		{op("handshake"), arr(app(10), al(2, 40)), rd(4), rd(100), rd(100), wr(2), op("close")},               // leftover of a record, then the peer's fatal alert
 	}
 	for i, calls := range corpus {
 		for _, target := range targets {
